@@ -32,8 +32,22 @@ int carquet_gzip_decompress(
         return CARQUET_ERROR_INVALID_COMPRESSED_DATA;
     }
 
-    int ret = inflate(&strm, Z_FINISH);
-    size_t output_size = strm.total_out;
+    /* A gzip stream is a series of members (RFC 1952, 2.2) and the Parquet
+     * format asks readers to accept pages made of several: keep inflating
+     * while input is left after a member ended. */
+    int ret;
+    size_t output_size;
+    for (;;) {
+        ret = inflate(&strm, Z_FINISH);
+        output_size = dst_capacity - strm.avail_out;
+        if (ret != Z_STREAM_END || strm.avail_in == 0) {
+            break;
+        }
+        if (inflateReset(&strm) != Z_OK) {
+            ret = Z_DATA_ERROR;
+            break;
+        }
+    }
     inflateEnd(&strm);
 
     if (ret != Z_STREAM_END) {
